@@ -361,6 +361,12 @@ def doCsCall (d : DS) (name : String) (t : Toks) : Option (DS × String) :=
     let r := if allZero then
         also (also r d "IMP.ke.lhs" (showRat (if gain > 0 then gain else 0))) d "IMP.ke.rhs" "0"
       else r
+    -- a pre-impact velocity that is already feasible is returned unchanged with zero impulses
+    let feasible := ((matVec cs.G d.qd).zip (List.range nc)).all (fun p => p.1 = d.vplus p.2)
+    let r := if feasible then
+        also (also r d "IMP.same.lhs" (" ".intercalate d.impl)) d "IMP.same.rhs"
+          (showVec d.qd nd ++ " " ++ showList ((List.range nc).map (fun _ => 0)))
+      else r
     let r := if d.lastFDC.isEmpty then r else
       also (also r d "IMP.agree.lhs" (" ".intercalate d.impl)) d "IMP.agree.rhs" (" ".intercalate d.lastFDC)
     some ({ r.1 with lastFDC := d.impl }, r.2)
@@ -368,6 +374,10 @@ def doCsCall (d : DS) (name : String) (t : Toks) : Option (DS × String) :=
     let r := out d name (" ".intercalate d.impl)
     if d.impl.isEmpty then some r else
     let cs := d.cspec
+    let unact0 := (zipIdx d.actuation).filterMap (fun p => if p.1 then none else some p.2)
+    let GPT0 : LMat Q := cs.G.map (fun row => unact0.map (fun j => row.getD j 0))
+    -- the exact operator is specified only for systems reported as fully actuated
+    if name = "IDC" && lmRank GPT0 ≠ unact0.length then some r else
     let qdd := ivf
     let ta := fun i => ivf (nd + i)
     let lam := fun i => ivf (2 * nd + i)
@@ -709,7 +719,7 @@ def step (d : DS) (line : String) : DS × Option String :=
       ({ d with actuation := l.map (· ≠ 0) }, none)
     | "cs_vplus" =>
       let (n, t) := t.nat; let (l, _) := t.rats n
-      ({ d with vplus := vecOfList l }, none)
+      ({ d with vplus := vecOfList l, lastFDC := [] }, none)
     | "alg" =>
       let op := rest.headD ""
       let args := (rest.drop 1).map (fun s => (parseRat s).getD 0)
